@@ -84,3 +84,54 @@ Proof.
   intros V n batches Hk.
   exact (proj1 (@batches_tree_map V unit tt (fun _ _ => tt) (fun _ _ => tt) n batches E [] Hk I (Permutation.Permutation_refl _))).
 Qed.
+
+(* ==================== second round: any number of queries ==================== *)
+From Coq Require Import NArith.
+From LE Require Import SMT.MultiProofs SMT.MultiTop SMT.NodeClaims SMT.PathComplete.
+
+(* SOUNDNESS of smt.Verify (faithful model of Verify + CalculateRoot as repaired), ANY number of queries, any sibling
+   hashes, any trie t: if Verify accepts against the hash of t then every query of the proof ends at a real node of t —
+   the sub-tree of t at the path given by the first [height] bits of the query key exists and its hash is the claimed
+   one (the leaf hash of (Key, Value) for a non-empty value, the empty hash otherwise).
+   Hash hypotheses: the equality test decides equality, branch hash injective, leaf/branch/empty domain separation. *)
+Theorem C10_verify_sound :
+  forall (V Hsh : Type) (hempty : Hsh) (hleaf : key -> V -> Hsh) (hleafb : list N -> list N -> Hsh)
+         (hbranch : Hsh -> Hsh -> Hsh) (heqb : Hsh -> Hsh -> bool) (hnull : Hsh -> bool),
+    (forall a b, heqb a b = true -> a = b) ->
+    (forall a b c d, hbranch a b = hbranch c d -> a = c /\ b = d) ->
+    (forall k v a b, hleaf k v <> hbranch a b) ->
+    (forall a b, hbranch a b <> hempty) ->
+    forall (t : @T V) keys sibs qs kl,
+      verify hempty hleafb hbranch heqb hnull keys sibs qs (hash hempty hleaf hbranch t) kl = VTrue ->
+      forall q, In q qs ->
+        exists nd, subtree_at t (bpath (mk_wq hempty hleafb q)) = Some nd /\
+                   hash hempty hleaf hbranch nd = w_hash (mk_wq hempty hleafb q).
+Proof. exact @verify_sound. Qed.
+
+(* ... and what such a node statement means for the map of a well-formed trie: a leaf hash (qk, v) at path p puts
+   (qk, v) in the map as the only key below p; the empty hash at p means no key of the map lies below p.
+   (Gluing the wire leaf hash hleafb(key bytes, value) to the trie leaf hash hleaf(key bits, value) needs the
+   ToBools/FromBools round trip on byte strings, which is tied by the correspondence runs only.) *)
+Theorem C10_node_claims :
+  forall (V Hsh : Type) (hempty : Hsh) (hleaf : key -> V -> Hsh) (hbranch : Hsh -> Hsh -> Hsh),
+    (forall k v k' v', hleaf k v = hleaf k' v' -> k = k' /\ v = v') ->
+    (forall k v a b, hleaf k v <> hbranch a b) ->
+    (forall k v, hleaf k v <> hempty) ->
+    (forall a b, hbranch a b <> hempty) ->
+    forall n (t nd : @T V) p, wf n 0 t -> subtree_at t p = Some nd ->
+      (forall qk v, hash hempty hleaf hbranch nd = hleaf qk v ->
+         In (qk, v) (tomap t) /\ forall k v', In (k, v') (tomap t) -> firstn (length p) k = p -> k = qk /\ v' = v) /\
+      (hash hempty hleaf hbranch nd = hempty -> forall k v', In (k, v') (tomap t) -> firstn (length p) k <> p).
+Proof. exact @node_claims. Qed.
+
+(* PARTIAL (canonical proof of one key).  Full statement aimed at: Verify(keys, Prove(keys), root) = true for every key
+   set.  Proved: for one key, walking down the trie collects a bitmap and sibling hashes from which CalculateRoot's
+   fold (started at the hash of the leaf / empty node reached) recomputes the root hash; no hash hypothesis.
+   Missing: that the model of trie.Prove (with its sibling-hash de-duplication across queries) outputs exactly these
+   data and several queries at once — tied by the correspondence (Go proofs = model proofs, all verify). *)
+Theorem C10_prove_verify_complete_single_key_partial :
+  forall (V Hsh : Type) (hempty : Hsh) (hleaf : key -> V -> Hsh) (hbranch : Hsh -> Hsh -> Hsh) (t : @T V) (bits : key),
+    let '(nd, bm, sb) := walk hempty hleaf hbranch t bits in
+    recompute hempty hbranch bits (rev bm) (rev sb) (hash hempty hleaf hbranch nd) = Some (hash hempty hleaf hbranch t) /\
+    (nd = E \/ exists k v, nd = L k v).
+Proof. exact @canonical_proof_verifies. Qed.
